@@ -1,7 +1,7 @@
 import sys,os,time
 sys.path.insert(0,'/verif')
 from rules import core, jsonsemi
-P=core.Program('cli','/verif/build/facts/t1/cli')
+P=core.Program('cli',sorted(__import__('glob').glob('/verif/build/facts/*/cli'))[-1])
 for kind in ('standard','simple'):
     t=time.time()
     rs=jsonsemi.rule_json({'cli':P},'quick',kind)
